@@ -56,7 +56,7 @@ func runC17(c *Ctx) {
 		}
 		return false
 	})
-	c.floor("UNIFORM", 40)
+	c.floor("UNIFORM", 15)
 	c.runPascal("PASCAL")
 	c.floor("PASCAL", 10)
 }
